@@ -28,7 +28,7 @@ theorem walk_table_complete : ∀ k : NK, (Gen.walkTargets k).map Slot.erase = G
 theorem walk_guards_as_modelled : ∀ k : NK, (Gen.walkTargets k).map (·.kind) = (refSlots k).map (·.kind) := by
   intro k; cases k <;> decide
 
-theorem erase_kind_inj (a b : Slot) (h1 : a.erase = b.erase) (h2 : a.kind = b.kind) : a = b := by
+private theorem erase_kind_inj (a b : Slot) (h1 : a.erase = b.erase) (h2 : a.kind = b.kind) : a = b := by
   cases a; cases b; simp_all [Slot.erase]
 
 private theorem list_eq_of_maps {l1 l2 : List Slot}
